@@ -67,12 +67,12 @@ func Arr(items ...*Node) *Node {
 	return &Node{Kind: KArray, Items: items}
 }
 func Map(pairs ...[2]*Node) *Node { return &Node{Kind: KMap, Pairs: pairs} }
-func P(k, v *Node) [2]*Node        { return [2]*Node{k, v} }
-func Tag(n uint64, c *Node) *Node  { return &Node{Kind: KTag, U: n, Items: []*Node{c}} }
-func Simple(v uint8) *Node         { return &Node{Kind: KSimple, U: uint64(v)} }
-func Raw(b []byte) *Node           { return &Node{Kind: KRaw, B: append([]byte{}, b...)} }
-func Null() *Node                  { return Simple(22) }
-func Undef() *Node                 { return Simple(23) }
+func P(k, v *Node) [2]*Node       { return [2]*Node{k, v} }
+func Tag(n uint64, c *Node) *Node { return &Node{Kind: KTag, U: n, Items: []*Node{c}} }
+func Simple(v uint8) *Node        { return &Node{Kind: KSimple, U: uint64(v)} }
+func Raw(b []byte) *Node          { return &Node{Kind: KRaw, B: append([]byte{}, b...)} }
+func Null() *Node                 { return Simple(22) }
+func Undef() *Node                { return Simple(23) }
 func Bool(b bool) *Node {
 	if b {
 		return Simple(21)
